@@ -197,13 +197,14 @@ def diverges(body, b):
 from ..inline import inlined, keep_also, default_keep
 
 
-def inl(F, fn, *anchors, keep=None, tag=None):
-    """body of fn with private helpers inlined; `anchors` stay calls."""
+def inl(F, fn, *anchors, keep=None, tag=None, desugar=False):
+    """body of fn with private helpers inlined; `anchors` stay calls; desugar=True: combinators (`map`, `then`, `for_each`..)
+    with closure arguments are rewritten into the switch / loop they stand for and the closure is inlined."""
     if fn is None:
         return None
     k = keep or keep_also(*anchors)
     t = tag or ("k:" + ",".join(sorted(a.key for a in anchors if a is not None)))
-    return inlined(F, fn, k, tag=t)
+    return inlined(F, fn, k, tag=t, desugar=desugar)
 
 
 def entry_callers(F, fn, limit=6):
